@@ -439,7 +439,7 @@ theorem data_record_delivered (s : Side) (q scid uid : Nat) (d : Bytes) (c : SC)
     ∀ u : Nat, (step s (.rxData q scid d)).1.subs[u]? = s.subs[u]? := by
   obtain ⟨hi, hg⟩ := gotRecord_fresh s q (handleData scid d) hseq
   simp only [step, hg]
-  obtain ⟨s', hs', hlog, _, hself, hoth⟩ := handleData_connected
+  obtain ⟨s', hs', hlog, _, hself, hoth, _⟩ := handleData_connected
     { s with log := s.log ++ [.ack q], highestAcked := hi } scid uid d c pb k hl hc hp hst
   rw [hs']
   refine ⟨rfl, by rw [hlog]; simp, ?_⟩
@@ -463,6 +463,81 @@ theorem data_record_queued (s : Side) (q scid uid : Nat) (d : Bytes) (c : SC) (l
     { s with log := s.log ++ [.ack q], highestAcked := hi } scid uid d c l hl hc hst hd
   rw [hs']
   exact ⟨rfl, hlog, hself, hoth⟩
+
+/-! ## records parked between the Leader's KCM and `select()`; connection loss -/
+
+/-- **parked burst = OPEN + DATA + CLOSE.**  The records of a whole subchannel life arrive in the
+    same chunk as the KCM (the Leader opened, wrote and closed while the link was down) and are
+    parked; a listener for the name exists.  `select()` drains them oldest first: the subchannel
+    appears exactly once, its protocol reads the data, then gets `connectionLost`; the CLOSE is
+    answered and the id is free again.  (Drained newest-first, the CLOSE would hit a missing
+    subchannel and OPEN and DATA would be dropped as old.) -/
+theorem parked_open_data_close (s : Side) (q q1 q2 scid : Nat) (name : String) (d : Bytes)
+    (hpark : s.parked = [.opn q scid name, .data q1 scid d, .close q2 scid]) (hq : q < q1 ∧ q1 < q2)
+    (hseq : ∀ h, s.highestAcked = some h → h < q)
+    (hfac : lookup name s.factories = some .full) (hnew : lookup scid s.open_ = none) :
+    (step s .select).2 = none ∧
+    (step s .select).1.log = s.log ++ [.build s.protoCount name, .made s.protoCount, .data s.protoCount d,
+                                       .txClose s.nextSeq scid, .lost s.protoCount] ∧
+    lookup scid (step s .select).1.open_ = none ∧ (step s .select).1.pendingOpens = s.pendingOpens := by
+  simp only [step, hpark, selectRun, Rx.seq, Rx.handler]
+  -- OPEN
+  rw [gotRecordNoAck_fresh' _ q _ (by intro h hh; exact hseq h hh)]
+  obtain ⟨s1, c1, e1, l1, hc1, hst1, hp1, hsc1, hlk1, hop1, hpc1, hsq1, hha1, hpe1⟩ :=
+    handleOpen_listener_full { ({ s with parked := [] } : Side) with highestAcked := some q } scid name hfac hnew
+  rw [e1]
+  simp only []
+  -- DATA
+  rw [gotRecordNoAck_fresh' s1 q1 _ (by intro h hh; rw [hha1] at hh; cases hh; exact hq.1)]
+  obtain ⟨s2, e2, l2, hop2, hc2, _, hsame2, hsq2, hpc2, _⟩ :=
+    handleData_connected { s1 with highestAcked := some q1 } scid s.subs.length d c1 s.protoCount .full hlk1 hc1 hp1
+      (by rw [hst1]; rfl)
+  rw [e2]
+  simp only []
+  -- CLOSE
+  rw [gotRecordNoAck_fresh' s2 q2 _ (by intro h hh; rw [hsame2.highestAcked] at hh; cases hh; exact hq.2)]
+  obtain ⟨s3, e3, l3, hop3, hpe3, _⟩ :=
+    handleClose_openFull { s2 with highestAcked := some q2 } scid s.subs.length c1 s.protoCount
+      (by show lookup scid s2.open_ = _; rw [hop2]; exact hlk1) hc2 hsc1 hp1 hst1
+  rw [e3]
+  refine ⟨rfl, ?_, ?_, ?_⟩
+  · rw [l3, l2, l1]
+    have : ({ s2 with highestAcked := some q2 } : Side).nextSeq = s.nextSeq := by
+      show s2.nextSeq = _; rw [hsq2]; show s1.nextSeq = _; rw [hsq1]
+    rw [this]; simp
+  · rw [hop3]
+    show lookup scid (eraseKey scid s2.open_) = none
+    rw [hop2]
+    show lookup scid (eraseKey scid s1.open_) = none
+    rw [hop1, eraseKey_append_new _ _ _ hnew]; exact hnew
+  · rw [hpe3]; show s2.pendingOpens = _; rw [hsame2.pendingOpens]; exact hpe1
+
+/-- **the ack watermark survives a connection loss** (so does everything else the subchannels
+    need; only the dead connection's parked records go) -/
+theorem watermark_survives_connection_loss (s : Side) :
+    (step s .lost).2 = none ∧ (step s .lost).1.highestAcked = s.highestAcked ∧ (step s .lost).1.subs = s.subs ∧
+    (step s .lost).1.open_ = s.open_ ∧ (step s .lost).1.pendingOpens = s.pendingOpens ∧ (step s .lost).1.log = s.log ∧
+    (step s .lost).1.parked = [] :=
+  ⟨rfl, rfl, rfl, rfl, rfl, rfl, rfl⟩
+
+/-- **re-sent records are ignored.**  After a connection loss the peer re-sends whatever it has no
+    ACK for.  Records this side had already processed (seqnum ≤ watermark `h`) that come back — as
+    a burst parked with the new connection's KCM and drained by `select()` — change nothing: no
+    SubChannel appears a second time, no callback, no record sent.  Likewise one by one later, where
+    each is just acked again. -/
+theorem resent_burst_ignored (s : Side) (h : Nat) (rs : List Rx) (hw : s.highestAcked = some h)
+    (hold : ∀ r ∈ rs, r.seq ≤ h) :
+    step (run (step s .lost).1 (rs.map Op.park)) .select = ({ s with parked := [] }, none) := by
+  rw [run_parks]
+  simp only [step, List.nil_append]
+  exact selectRun_old h rs _ hw hold
+
+theorem resent_record_ignored (s : Side) (h seq scid : Nat) (d : Bytes) (name : String)
+    (hw : s.highestAcked = some h) (hold : seq ≤ h) :
+    step (step s .lost).1 (.rxData seq scid d) = (emit (.ack seq) { s with parked := [] }, none) ∧
+    step (step s .lost).1 (.rxOpen seq scid name) = (emit (.ack seq) { s with parked := [] }, none) ∧
+    step (step s .lost).1 (.rxClose seq scid) = (emit (.ack seq) { s with parked := [] }, none) := by
+  refine ⟨?_, ?_, ?_⟩ <;> simp only [step] <;> exact gotRecord_old _ seq h _ hw hold
 
 /-! ## data_before_close -/
 
@@ -615,6 +690,24 @@ example : lookup "a" exPending2.pendingOpens = some [0, 1] ∧
 /-- the third case of `open_exactly_once`.1 is real: a peer that (against the protocol) opens one
     of *our* ids makes our next `connect()` fail with AssertionError, leaving a garbage object -/
 example : (step (run (Side.init true 1 none) [.rxOpen 0 1 "a"]) (.connect "b" .full)).2 = some .assertion := by decide
+
+/-- a follower with a listener, three records of one subchannel life parked with the KCM: the
+    hypotheses of `parked_open_data_close` hold and `select()` gives the whole life, in order -/
+def exParked : Side := run (Side.init false 2 none)
+  [.listen "a" .full, .park (.opn 0 1 "a"), .park (.data 1 1 [7]), .park (.close 2 1)]
+
+example : exParked.parked = [.opn 0 1 "a", .data 1 1 [7], .close 2 1] ∧ lookup "a" exParked.factories = some .full ∧
+    lookup 1 exParked.open_ = none ∧ exParked.highestAcked = none := by decide
+
+example : (step exParked .select).1.log = [.build 0 "a", .made 0, .data 0 [7], .txClose 0 1, .lost 0] := by decide
+
+/-- a whole subchannel life was processed (watermark 2); the link drops, the peer re-sends all three
+    records with the next KCM: nothing happens (`resent_burst_ignored`) -/
+example :
+    let s := (step exParked .select).1
+    s.highestAcked = some 2 ∧
+    (step (run (step s .lost).1 [.park (.opn 0 1 "a"), .park (.data 1 1 [7]), .park (.close 2 1)]) .select).1.log = s.log := by
+  decide
 
 end Examples
 
